@@ -51,6 +51,7 @@ func makeDeadline(d time.Duration) fasttime {
 	// stopped clock refreshes current before it extends clockEnd, so a
 	// clockEnd that covers our end implies that the current we read is live.
 	clockEnd := fast.clockEnd.read()
+	verifPoint(verifPtDeadlineRead)
 	end := fast.current.read() + durationToTicks(d+clockPeriod)
 
 	// Start or extend clock if necessary.
